@@ -8,6 +8,7 @@ import LiteFSVerif.Driver.ProxySpecD
 import LiteFSVerif.Driver.ApiSpecD
 import LiteFSVerif.Driver.HaltSpecD
 import LiteFSVerif.Driver.BackupSpecD
+import LiteFSVerif.Driver.LeaseSpecD
 
 /-! `specd`: runs only the independent specifications (never imports Gen/ or Model/),
     so it still builds when the regenerated definitions no longer do. -/
@@ -30,6 +31,7 @@ def main (args : List String) : IO UInt32 := do
   | ["api-spec"] => loop stdin stdout ApiSpec.step {}; return 0
   | ["halt-spec"] => loop stdin stdout HaltSpec.step {}; return 0
   | ["backup-spec"] => loop stdin stdout BackupSpec.step {}; return 0
+  | ["lease-spec"] => loop stdin stdout LeaseSpec.step {}; return 0
   | ["codec-spec"] => loop stdin stdout CodecSpec.step (); return 0
   | _ =>
     IO.eprintln "usage: specd <suite>"
